@@ -88,7 +88,7 @@ def run(ctx):
     vf.write_ndjson(cpath, cases)
     # 3. run the real code, 4. judge with the trace specification
     out = os.path.join(ctx.tmp, "c17.ndjson")
-    extra = ctx.pick(["-corrupt", "12"], ["-all", "-corrupt", "200"])
+    extra = ctx.pick(["-corrupt", "12"], ["-all", "-corrupt", "1000"])
     events = drive(ctx, cpath, out, extra)
     judge(ctx, events, out)
     ctx.cov["traces_validated_against_impl"] += len(events)
